@@ -97,6 +97,7 @@ type ftCaller struct {
 	mu    sync.Mutex
 	kills []string // task ids of KILL calls
 	other int
+	reconciles []int // number of tasks listed by each RECONCILE call (0 = implicit reconciliation)
 	fail  func(taskId string) bool
 	onKill func(taskId string) // what Mesos does after accepting a KILL (e.g. report TASK_KILLED)
 }
@@ -113,6 +114,10 @@ func (c *ftCaller) Call(ctx context.Context, call *scheduler.Call) (mesos.Respon
 		if c.onKill != nil {
 			c.onKill(id)
 		}
+		return nil, nil
+	}
+	if call.GetType() == scheduler.Call_RECONCILE {
+		c.reconciles = append(c.reconciles, len(call.GetReconcile().GetTasks()))
 		return nil, nil
 	}
 	c.other++
